@@ -135,6 +135,45 @@ def main():
                           '  %%p0 = bitcast %s %%a0 to i8*' % ptys[0], '  %r = call zeroext i1 @vf_str_disjunct(i8* %p0, i8* %a1)', '  ret i1 %r', '}',
                           'declare zeroext i1 @vf_str_disjunct(i8*, i8*)']
         sys.stderr.write('prep_ir: builtin %s -> vf_str_disjunct\n' % DISJ)
+    # state havoc: a harness may declare `extern "C" void vf_havoc_scalars_<Class>(void*)`.  It is DEFINED here, from the class's
+    # LLVM struct type: every integer member declared directly in the class (not inside a member object, not a pointer) is given an
+    # arbitrary value (i8 members: 0/1, they are bools in this code base).  The harness then re-establishes the members it knows; what is
+    # left arbitrary are exactly the members it does not know about - counters and mode flags a later change may add - so that ONE step of
+    # the class from "any state such a member can be in" is decided (inductive-step reading).  Produced at IR level, so the CBMC encoding
+    # and the native replay share it.
+    for n, idx in list(decls.items()):
+        mh = re.fullmatch(r'vf_havoc_scalars_(\w+)', n)
+        if not mh: continue
+        tag = mh.group(1)
+        cands = [ln for ln in lines if re.match(r'%"?(?:class|struct)\.(?:[^"=]*[:.])?' + tag + r'"? = type <?\{', ln)]
+        if len(cands) != 1:
+            sys.stderr.write('prep_ir: havoc %s matches %d struct types\n' % (tag, len(cands))); sys.exit(3)
+        tname, body = cands[0].split(' = type ', 1)
+        body = body.strip(); body = body[body.index('{') + 1: body.rindex('}')]
+        fields = []; depth = 0; cur = ''
+        for ch in body:
+            if ch in '{[<(': depth += 1
+            elif ch in '}]>)': depth -= 1
+            if ch == ',' and depth == 0: fields.append(cur.strip()); cur = ''
+            else: cur += ch
+        if cur.strip(): fields.append(cur.strip())
+        fn = ['define void @%s(i8* %%a0) noinline {' % n, '  %%o = bitcast i8* %%a0 to %s*' % tname]
+        nd = {'i8': 'nondet_u8', 'i32': 'nondet_u32', 'i64': 'nondet_u64'}
+        hav = []
+        for k, ft in enumerate(fields):
+            if ft not in nd: continue
+            fn.append('  %%p%d = getelementptr inbounds %s, %s* %%o, i32 0, i32 %d' % (k, tname, tname, k))
+            fn.append('  %%v%d = call %s @%s()' % (k, ft, nd[ft]))
+            if ft == 'i8':
+                fn.append('  %%w%d = and i8 %%v%d, 1' % (k, k)); fn.append('  store i8 %%w%d, i8* %%p%d' % (k, k))
+            else:
+                fn.append('  store %s %%v%d, %s* %%p%d' % (ft, k, ft, k))
+            hav.append('%d:%s' % (k, ft))
+        fn += ['  ret void', '}']
+        for ft, f in nd.items():
+            if f not in decls and f not in defs and any(h.endswith(':' + ft) for h in hav): fn.append('declare %s @%s()' % (ft, f)); decls[f] = -1
+        drop.add(idx); out_edits[idx] = fn
+        sys.stderr.write('prep_ir: havoc %s fields %s of %s\n' % (n, ' '.join(hav), tname))
     # vtable scrub: destructor entries and out-of-scope virtual functions are replaced by
     # vf_virtual_stub (asserts) or vf_virtual_noop, so that neither CBMC's function-pointer
     # resolution nor the native link drags in code the obligation never runs
